@@ -1,5 +1,5 @@
 """C12 — printed XML and JSON are standard-conformant and mean the same to any parser."""
-from checks import textcomp
+from checks import textcomp, rtcomp
 
 LEAN_TARGETS = ["LyModel.Props.C12"]
 AUDIT = "Audit/C12.lean"
@@ -10,9 +10,12 @@ TRUSTED = ["Python xml.parsers.expat and json as the independent parsers"]
 
 
 def classify(component, what, case):
+    if component == "rt":
+        return rtcomp.classify(component, what, case)
     return None
 
 
 def run(cx):
     textcomp.run_text(cx, want=("xml", "json"), law=("independent",))
     textcomp.spec_readers_vs_external(cx, textcomp.gen_strings(cx, 3000, 50000))
+    rtcomp.run_rt(cx, laws=("independent",))
